@@ -89,6 +89,9 @@ void harness(void) {
 #ifdef MODE_HI0		/* one-digit dividend: the portable code uses the compiler's single-digit / and % */
 	V_ASSUME(b == 0);
 #endif
+#ifdef MODE_ZERO		/* zero divisor only */
+	V_ASSUME(c == 0);
+#endif
 #ifdef MODE_P2		/* two-digit dividend, power-of-two divisor: shift path of the portable code */
 	V_ASSUME(b != 0 && c != 0 && (c & (c - 1)) == 0);
 #endif
@@ -116,17 +119,21 @@ void harness(void) {
 	V_ASSERT(r == 0, "digit divide succeeds for non-zero divisor");
 	V_ASSERT(rh == 0, "digit divide: remainder high digit is zero");
 #if defined(ORACLE_NATIVE)	/* the C operators / and % on the double-width type */
+#ifdef MODE_HI0	/* one-digit dividend: single-width operators */
+	V_ASSERT(qh == 0 && ql == (bn_digit_t)(a / c) && rl == (bn_digit_t)(a % c), "digit divide: q == lo / d and r == lo % d (native operators)");
+#else
 	dd_t n = DD(b, a);
 	V_ASSERT(DD(qh, ql) == n / (dd_t)c && rl == (bn_digit_t)(n % (dd_t)c), "digit divide: q == hi:lo / d and r == hi:lo % d (native operators)");
+#endif
 #elif defined(ORACLE_LONGDIV)	/* textbook bit-serial restoring division on the double-width type (itself checked against q*d+r at W=8,16) */
-	dd_t n = DD(b, a), q = 0, r = 0;
+	dd_t n = DD(b, a), oq = 0, orem = 0;
 	for (int i = 2 * W - 1; i >= 0; i--) {
-		r = (r << 1) | ((n >> i) & 1);
-		if (r >= (dd_t)c) { r -= (dd_t)c; q |= ((dd_t)1) << i; }
+		orem = (orem << 1) | ((n >> i) & 1);
+		if (orem >= (dd_t)c) { orem -= (dd_t)c; oq |= ((dd_t)1) << i; }
 	}
-	V_ASSERT(DD(qh, ql) == q && rl == (bn_digit_t)r, "digit divide: q,r == bit-serial long division");
+	V_ASSERT(DD(qh, ql) == oq && rl == (bn_digit_t)orem, "digit divide: q,r == bit-serial long division");
 #ifdef CHECK_ORACLE
-	V_ASSERT(divides_exactly(a, b, c, (bn_digit_t)q, (bn_digit_t)(q >> W), (bn_digit_t)r), "reference long division satisfies hi:lo == q*d + r and r < d");
+	V_ASSERT(divides_exactly(a, b, c, (bn_digit_t)oq, (bn_digit_t)(oq >> W), (bn_digit_t)orem), "reference long division satisfies hi:lo == q*d + r and r < d");
 #endif
 #else
 	V_ASSERT(divides_exactly(a, b, c, ql, qh, rl), "digit divide: hi:lo == q*d + r and r < d");
@@ -140,6 +147,9 @@ void harness(void) {
 	 *  (1) if hi < d (quotient fits one digit; the way bn_div uses it) then lo:hi == q*d + r, r < d for r := n - q*d;
 	 *  (2) for every input it equals the low quotient digit of bn_digit_div__int (itself decided by OP_DIV). */
 	bn_digit_t q = 0x5a;
+#ifdef MODE_HI_NZ	/* two-digit dividends only (wide digits: the one-digit path is the compiler's own / operator) */
+	V_ASSUME(b != 0);
+#endif
 	int r = bn_digit_div__int_short(a, b, c, &q);
 	if (c == 0) {
 		V_ASSERT(r == EINVAL, "short divide by zero digit is refused with EINVAL");
